@@ -88,7 +88,7 @@ inline RunRes run_inter(const std::function<bool(std::iostream &)> &prover, cons
 {
 	wire::Duplex d;
 	d.sh.logging = false;
-	d.sh.wait_limit = 30.0;
+	d.sh.wait_limit = 300.0;
 	mcenv::CoinSource a(seed, 101), b(seed, 202);
 	wire::Outcome o = wire::run2(d, prover, verifier, seed, csP ? csP : &a, csV ? csV : &b);
 	RunRes r;
